@@ -44,6 +44,7 @@ INTERNAL_PROGRAMS = [
 
 KF_AT = "label_at_in_expression"
 KF_US = "label_underscore_reference"
+OPEN_KF = {f["id"] for f in common.known_findings()["findings"] if f.get("status", "open") == "open"}
 
 
 def _tup(x):
@@ -812,9 +813,11 @@ def c18_check(case, base, var):
             newnames = list(prm["mapping"].values())
             at = [n for n in newnames if "@" in n and refs_in_expression(case["variant"], n)]
             us = [n for n in newnames if "_" in n and referenced(case["variant"], n)]
-            if var[0] == "DIAG" and us:
+            # (both classes were repaired by the "fix: a label can be referenced wherever it can be defined" commit:
+            #  a recurrence is a violation again; they are suppressed only while listed open in known_findings.json)
+            if var[0] == "DIAG" and us and KF_US in OPEN_KF:
                 return "known:" + KF_US, "label %s" % us[0]
-            if var[0] == "DIAG" and at:
+            if var[0] == "DIAG" and at and KF_AT in OPEN_KF:
                 return "known:" + KF_AT, "label %s" % at[0]
         return "violation", "%s variant of an accepted program is not accepted: %s" % (rel, str(var)[:120])
     _, img1, org1, name1, st1, sy1 = base
